@@ -55,6 +55,20 @@ def t7ins (p : Int × String) : List (Int × String) → List (Int × String)
 def t7frozenJ (k : FrozenItems Int String) : Json := t7dictJ (k.foldr t7ins [])
 -- --- end T7
 
+-- --- T9 helpers
+def excOr9 {α : Type} (f : α → Json) : Except Exc α → Json
+  | .ok a => Json.mkObj [("ok", f a)]
+  | .error e => Json.mkObj [("exc", excJ e)]
+def numJ (z : Num) : Json :=
+  match z with
+  | .real x => Json.mkObj [("re", ratToJson x)]
+  | .cplx r i => Json.mkObj [("re", ratToJson r), ("im", ratToJson i)]
+def numOf (j : Json) : Except String Num := do
+  match j.getObjVal? "im" with
+  | .ok v => pure (.cplx (← ratOfJson (← field j "re")) (← ratOfJson v))
+  | .error _ => pure (.real (← ratOfJson (← field j "re")))
+-- --- end T9
+
 def handle (op : String) (j : Json) : Except String Json := do
   match op with
   | "bin" => pure (strJ (bin (← intOfJson (← field j "n"))))
@@ -225,6 +239,32 @@ def handle (op : String) (j : Json) : Except String Json := do
                       ("max", excJ4 (fun (n : Nat) => intJ n) (maxNatE xs)),
                       ("maxset", excJ4 (fun (n : Nat) => intJ n) (maxNatE (setOfList xs)))])
   -- --- end T7
+  -- --- T9: numbers that may be complex, str helpers, the two regular expressions of the Pauli term parser, dict(pairs), indexing
+  | "t9_num" =>
+    let a ← numOf (← field j "a"); let b ← numOf (← field j "b")
+    pure (Json.mkObj [("add", numJ (Num.add a b)), ("mul", numJ (Num.mul a b)), ("jmul", numJ (Num.mul Num.j a)),
+                      ("re", ratToJson a.re), ("im", ratToJson a.im), ("iscomplex", Json.bool a.isComplex),
+                      ("truthy", Json.bool a.truthy)])
+  | "t9_str" =>
+    let s ← strOf (← field j "s"); let p ← strOf (← field j "p")
+    pure (Json.mkObj [("startswith", Json.bool (startswith s p)), ("endswith", Json.bool (endswith s p)),
+                      ("replace", strJ (replaceChar s ' ' p)), ("strip", strJ (stripChars s p)), ("upper", strJ (upperAscii s)),
+                      ("resplit", Json.arr ((reSplitStar s).map strJ).toArray),
+                      ("rematch", match reMatchPauliIndex s with
+                        | some g => Json.arr #[strJ g.1, strJ g.2]
+                        | none => Json.null)])
+  | "t9_dict" =>
+    let ps ← listOfJson (fun p => do
+      match (← arrOfJson p) with
+      | [a, b] => pure ((← intOfJson a), (← strOf b))
+      | _ => throw "pair expected") (← field j "pairs")
+    let i ← intOfJson (← field j "i")
+    pure (Json.mkObj [("dict", Json.arr ((dictOfPairs ps).map (fun p => Json.arr #[intJ p.1, strJ p.2])).toArray),
+                      ("index", excOr9 (fun (p : Int × Str) => Json.arr #[intJ p.1, strJ p.2]) (indexExc ps i)),
+                      ("map", excOr9 (fun l => Json.arr (l.map intJ).toArray) (mapExc (fun (p : Int × Str) => intParse p.2) ps)),
+                      ("fold", excOr9 intJ (foldlExc (fun (acc : Int) (p : Int × Str) =>
+                        (intParse p.2).bind (fun v => .ok (acc * 3 + v + p.1))) 1 ps))])
+  -- --- end T9
   | _ => throw s!"unknown prelude op {op}"
 
 end OQ.PY.Driver
